@@ -143,16 +143,107 @@ static void ref1(Out& ref, i128 stdv, i128 exact)
 enum OpId {
     OP_CAST, OP_FLOOR, OP_CEIL, OP_ROUND, OP_RND4, OP_TP_CAST, OP_TP_RND4,
     OP_CONV, OP_TP_CONV, OP_PLUS, OP_MINUS, OP_DIV, OP_MOD, OP_CMP, OP_TP_CMP, OP_CTYPE, OP_PERIOD, OP_UNARY,
-    OP_TP_UNARY, OP_COMPOUND, OP_TP_COMPOUND, OP_ABS, OP_LIMITS, OP_FCAST_IF, OP_FCONV_IF, OP_SCALAR, OP_TP_ARITH, OP_CASTW, OP_D_CAST, OP_D_RND4, OP_D_ARITH, OP_D_MIXED, OP_D_SCALAR, OP_D_PM, OP_D_MPM, OP_NONE
+    OP_TP_UNARY, OP_COMPOUND, OP_TP_COMPOUND, OP_ABS, OP_LIMITS, OP_FCAST_IF, OP_FCONV_IF, OP_SCALAR, OP_TP_ARITH, OP_CASTW, OP_D_CAST, OP_D_RND4, OP_D_ARITH, OP_D_MIXED, OP_D_SCALAR, OP_D_PM, OP_D_MPM, OP_CHAIN, OP_TP_CHAIN, OP_REFTYPES, OP_NONE
 };
 static OpId op_id(std::string const& s)
 {
     static char const* const names[] = {"cast", "floor", "ceil", "round", "rnd4", "tp_cast", "tp_rnd4", "conv", "tp_conv", "plus", "minus", "div", "mod", "cmp", "tp_cmp", "ctype", "period",
-        "unary", "tp_unary", "compound", "tp_compound", "abs", "limits", "fcast_if", "fconv_if", "scalar", "tp_arith", "castw", "d_cast", "d_rnd4", "d_arith", "d_mixed", "d_scalar", "d_pm", "d_mpm"};
+        "unary", "tp_unary", "compound", "tp_compound", "abs", "limits", "fcast_if", "fconv_if", "scalar", "tp_arith", "castw", "d_cast", "d_rnd4", "d_arith", "d_mixed", "d_scalar", "d_pm", "d_mpm", "chain", "tp_chain", "reftypes"};
     for (int k = 0; k < OP_NONE; ++k) {
         if (s == names[k]) { return static_cast<OpId>(k); }
     }
     return OP_NONE;
+}
+
+// ---- member operators as expressions: what they RETURN ---------------------------------------
+// mop<K, D>(obj, x) evaluates the K-th mutating member operator of the duration type D on obj and
+// returns exactly what the operator expression yields (decltype(auto): D& for an operator declared
+// "-> duration&", a prvalue D for one declared "-> duration").  obj may be an lvalue or a
+// temporary (the result of a previous mop): (d -= a) -= b is mop<5>(mop<5>(d, a), b).
+// Order = coq/C12/ModelChain.v all_mops: ++d d++ --d d-- += -= *= /= %=(rep) %=(duration)
+constexpr int NMOP  = 10;
+constexpr int NTMOP = 6; // time_point has the first six only
+template <int K, typename D, typename Obj>
+constexpr decltype(auto) mop(Obj&& obj, typename D::rep x)
+{
+    if constexpr (K == 0) { return ++obj; }
+    else if constexpr (K == 1) { return obj++; }
+    else if constexpr (K == 2) { return --obj; }
+    else if constexpr (K == 3) { return obj--; }
+    else if constexpr (K == 4) { return obj += D{x}; }
+    else if constexpr (K == 5) { return obj -= D{x}; }
+    else if constexpr (K == 6) { return obj *= x; }
+    else if constexpr (K == 7) { return obj /= x; }
+    else if constexpr (K == 8) { return obj %= x; }
+    else { return obj %= D{x}; }
+}
+// the same for a time_point type T (argument: a duration of T::duration)
+template <int K, typename T, typename Obj>
+constexpr decltype(auto) tmop(Obj&& obj, typename T::duration::rep x)
+{
+    using D = typename T::duration;
+    if constexpr (K == 0) { return ++obj; }
+    else if constexpr (K == 1) { return obj++; }
+    else if constexpr (K == 2) { return --obj; }
+    else if constexpr (K == 3) { return obj--; }
+    else if constexpr (K == 4) { return obj += D{x}; }
+    else { return obj -= D{x}; }
+}
+template <typename D>
+constexpr i64 cnt_of(D const& d)
+{
+    if constexpr (requires { d.count(); }) { return static_cast<i64>(d.count()); }
+    else { return static_cast<i64>(d.time_since_epoch().count()); }
+}
+// (obj @K1 a) @K2 b in ONE full expression; prints the count left in obj and the count of the value of the expression
+template <typename D, int K1, int K2>
+static void chain_one(Out& o, typename D::rep c, typename D::rep a, typename D::rep b)
+{
+    D obj{c};
+    i64 const v = cnt_of(mop<K2, D>(mop<K1, D>(obj, a), b));
+    o.num(cnt_of(obj)).num(v);
+}
+template <typename D, int K1, int... K2>
+static void chain_row(Out& o, typename D::rep c, typename D::rep a, typename D::rep b, std::integer_sequence<int, K2...>)
+{
+    (chain_one<D, K1, K2>(o, c, a, b), ...);
+}
+template <typename D, int... K1>
+static void chain_all(Out& o, int k1, typename D::rep c, typename D::rep a, typename D::rep b, std::integer_sequence<int, K1...>)
+{
+    o.tok("ok");
+    ((k1 == K1 ? chain_row<D, K1>(o, c, a, b, std::make_integer_sequence<int, NMOP>{}) : void()), ...);
+}
+template <typename T, int K1, int K2>
+static void tchain_one(Out& o, typename T::duration::rep c, typename T::duration::rep a, typename T::duration::rep b)
+{
+    T obj{typename T::duration{c}};
+    i64 const v = cnt_of(tmop<K2, T>(tmop<K1, T>(obj, a), b));
+    o.num(cnt_of(obj)).num(v);
+}
+template <typename T, int K1, int... K2>
+static void tchain_row(Out& o, typename T::duration::rep c, typename T::duration::rep a, typename T::duration::rep b, std::integer_sequence<int, K2...>)
+{
+    (tchain_one<T, K1, K2>(o, c, a, b), ...);
+}
+template <typename T, int... K1>
+static void tchain_all(Out& o, int k1, typename T::duration::rep c, typename T::duration::rep a, typename T::duration::rep b, std::integer_sequence<int, K1...>)
+{
+    o.tok("ok");
+    ((k1 == K1 ? tchain_row<T, K1>(o, c, a, b, std::make_integer_sequence<int, NTMOP>{}) : void()), ...);
+}
+// the static facts: is_same_v<decltype(obj @ x), D&> per operator, then is_same_v<decltype(obj @ x), D>
+template <typename D, int... K>
+static void reftypes_d(Out& o, std::integer_sequence<int, K...>)
+{
+    (o.b(std::is_same_v<decltype(mop<K, D>(std::declval<D&>(), std::declval<typename D::rep>())), D&>), ...);
+    (o.b(std::is_same_v<decltype(mop<K, D>(std::declval<D&>(), std::declval<typename D::rep>())), D>), ...);
+}
+template <typename T, int... K>
+static void reftypes_t(Out& o, std::integer_sequence<int, K...>)
+{
+    (o.b(std::is_same_v<decltype(tmop<K, T>(std::declval<T&>(), std::declval<typename T::duration::rep>())), T&>), ...);
+    (o.b(std::is_same_v<decltype(tmop<K, T>(std::declval<T&>(), std::declval<typename T::duration::rep>())), T>), ...);
 }
 
 static std::string dbits(double x)
@@ -561,6 +652,45 @@ struct Ops {
                 { ST1 t{S1{c}}; t += S1{x}; ref.num(t.time_since_epoch().count()); }
                 { ST1 t{S1{c}}; t -= S1{x}; ref.num(t.time_since_epoch().count()); }
                 return true;
+            }
+            case OP_CHAIN: {
+                // (d @k1 a) @k2 b for every k2: the count left in d and the count of the expression  [time.duration.arithmetic]
+                if constexpr (I == J) {
+                    int k1 = static_cast<int>(in.num());
+                    auto c = static_cast<R1>(in.num());
+                    auto a = static_cast<R1>(in.num());
+                    auto b = static_cast<R1>(in.num());
+                    chain_all<E1>(impl, k1, c, a, b, std::make_integer_sequence<int, NMOP>{});
+                    chain_all<S1>(ref, k1, c, a, b, std::make_integer_sequence<int, NMOP>{});
+                    return true;
+                }
+                break;
+            }
+            case OP_TP_CHAIN: {
+                if constexpr (I == J) {
+                    int k1 = static_cast<int>(in.num());
+                    auto c = static_cast<R1>(in.num());
+                    auto a = static_cast<R1>(in.num());
+                    auto b = static_cast<R1>(in.num());
+                    tchain_all<ET1>(impl, k1, c, a, b, std::make_integer_sequence<int, NTMOP>{});
+                    tchain_all<ST1>(ref, k1, c, a, b, std::make_integer_sequence<int, NTMOP>{});
+                    return true;
+                }
+                break;
+            }
+            case OP_REFTYPES: {
+                // result types of the mutating member operators (lvalue duration& / time_point&, prvalue for postfix),
+                // printed as values: a changed library must show up as a failing case, not as a build failure
+                if constexpr (I == J) {
+                    impl.tok("ok");
+                    reftypes_d<E1>(impl, std::make_integer_sequence<int, NMOP>{});
+                    reftypes_t<ET1>(impl, std::make_integer_sequence<int, NTMOP>{});
+                    ref.tok("ok");
+                    reftypes_d<S1>(ref, std::make_integer_sequence<int, NMOP>{});
+                    reftypes_t<ST1>(ref, std::make_integer_sequence<int, NTMOP>{});
+                    return true;
+                }
+                break;
             }
             case OP_ABS: {
                 auto c = static_cast<R1>(in.num());
